@@ -302,12 +302,17 @@ where
             iter.nth(initial_skip - 1);
         }
 
-        // Set `remaining_y` to `0` if `width == 0` to prevent integer underflow in `next`.
-        let remaining_y = if size.width > 0 { size.height } else { 0 };
+        // `remaining_y` is the number of rows after the current row. Zero sized images don't
+        // contain any pixels, which also prevents an integer underflow in `next` if `width == 0`.
+        let (remaining_x, remaining_y) = if size.width > 0 && size.height > 0 {
+            (size.width, size.height - 1)
+        } else {
+            (0, 0)
+        };
 
         Self {
             iter,
-            remaining_x: size.width,
+            remaining_x,
             width: size.width,
             remaining_y,
             row_skip,
